@@ -1297,7 +1297,7 @@ def get_padded_extrema(X, pad_width=2, mode='peaks', parabolic_extrema=False,
     ret_max_ext = np.pad(max_ext, pad_width, mag_pad_mode, **mag_pad_opts)
 
     # Keep padding if the locations don't stretch to the edge
-    while max(ret_max_locs) < len(X) or min(ret_max_locs) >= 0:
+    while max(ret_max_locs) <= len(X) - 1 or min(ret_max_locs) >= 0:
         ret_max_locs = np.pad(ret_max_locs, pad_width, loc_pad_mode, **loc_pad_opts)
         ret_max_ext = np.pad(ret_max_ext, pad_width, mag_pad_mode, **mag_pad_opts)
 
